@@ -314,6 +314,21 @@ fn run_prop(prop: &'static str, thorough: bool) -> Part {
                 part.violations.push((v, p));
             }
         }
+        if matches!(prop, "C03" | "C04" | "C10") && part.violations.is_empty() {
+            let t = Instant::now();
+            let sw = single::limit_sweep(prop);
+            part.stats.evaluations += sw.runs;
+            part.stats.executions += sw.runs;
+            for h in &sw.hashes {
+                part.stats.nontrivial.insert(*h);
+            }
+            part.engines.push(json!({"engine": "limit sweep: two brooms (hub with 3/5/9 successors beside a chain of 2..5 ending in 5/8/14 successors), limits 2..4, six limit-taking APIs, forward and mirrored-reverse; the hub is completed after the chain and after j = 0.. chain-end successors, so functions of far-apart generations wait for a slot together", "runs": sw.runs, "samples": sw.samples, "wall_s": t.elapsed().as_secs_f64()}));
+            if let Some((v, case)) = sw.violation {
+                let f = Failure { check: format!("limit-sweep:{prop}"), violation: v.clone(), tapes: vec![], decoded: json!({"kind": "single", "intr_build": INTR, "case": case}) };
+                let p = write_replay(prop, &f);
+                part.violations.push((v, p));
+            }
+        }
         let check = SingleCheck::new(prop, thorough);
         part.add_search(prop, &check, cases, workers, &known);
         if prop == "C05" && !INTR {
